@@ -377,7 +377,9 @@ def _check_moments(af, ws, where, pred, est):
         asym_in = float(np.sum(np.abs(ws) * np.array([kf.asym(q) for q in ps])))
         neg_in = float(np.sum(np.abs(ws) * np.array([max(0.0, -kf.min_eig_sym(q)) for q in ps])))
         a = kf.asym(gp_)
-        ctx.check(a <= asym_in + 8 * EPS * mag_p, f"{which}-cov-asymmetric", f"after {where}: {which}_p asymmetric by {a:.3e} (models: {asym_in:.3e})", w, mon="cov_sym_psd")
+        # the mixture sums k weighted terms; each adds its own rounding (k eps |P|) on top of the models' own asymmetry.
+        # A genuinely asymmetric construction (e.g. outer(d, e) with d != e) is O(|P|), 1e12 times above this floor.
+        ctx.check(a <= 4.0 * asym_in + 64 * (k + 2) * EPS * mag_p, f"{which}-cov-asymmetric", f"after {where}: {which}_p asymmetric by {a:.3e} (models: {asym_in:.3e})", w, mon="cov_sym_psd")
         lam = kf.min_eig_sym(gp_)
         floor = -(neg_in + 64 * (n + k) * EPS * mag_p)
         ctx.check(lam >= floor, f"{which}-cov-not-psd", f"after {where}: {which}_p has eigenvalue {lam:.3e} below {floor:.3e} (|P|~{mag_p:.3e})", w, mon="cov_sym_psd")
